@@ -45,6 +45,8 @@ def parse_step_obs(chk, tag, states=range(0, 16), checks="none", callbacks=False
         add(0, "DEPRDROP", 1, 0, 1, extra=("PREV_IS_O",))
         add(0, "DEPRDROP", 1, F["IGNORE"], 0, extra=("PREV_IS_O",))
         add(0, "INT", 1, 0, 0, extra=("PREV_IS_O",))
+        add(0, "DEPRDROP", 1, 0, 1, extra=("PREV_IS_O", "FORCE_OPT"))  # end of the default value string of a deprecated option
+        add(0, "DEPR", 1, 0, 1, extra=("PREV_IS_O", "FORCE_OPT"))
         add(0, "STRLIST", 2, F["IGNORE"], 1, extra=("PREV_IS_O",))
         add(0, "SECKV", 1, 0, 1)
         add(0, "SECKV", 1, F["NOCASE"], 1)
